@@ -424,9 +424,16 @@ func (c *Ctx) c02Sweep(snap *load.FuncInfo) {
 			}
 			return found
 		}
+		// (Until fix c2f8d52 the fall-back was load-bearing — the cached expiration was zero after every restart — and its
+		// existence was an obligation. Now the cache is refreshed from the configuration in force before it is used (N6e, N6f):
+		// an expiration of zero is then what the network configured, and "expiration + 10s" is the horizon the property asks
+		// for. The fall-back is only observed; that it must not override a configured value is still checked above.)
 		ok := hasFallback(snap) || hasFallback(c.P.Func("main.(*FSM).sessionExpiration"))
-		r.Check(ok, "C02.N6", snap.Name(), "an unset session expiration is replaced by a built-in one", c.P.Pos(snap.Node().Pos()), "a positive constant duration under <expiration> == 0, in Snapshot or in sessionExpiration()",
-			"the compaction horizon is computed from the FSM's cached session expiration without a fall-back for zero: that cache is only filled when a Config entry is applied in this process, so after every restart the horizon is a few seconds — output and entries that live sessions still need are compacted away")
+		if ok {
+			r.Ok("C02.N6", snap.Name(), "an unset session expiration is replaced by a built-in one", c.P.Pos(snap.Node().Pos()), "a positive constant duration under <expiration> == 0, in Snapshot or in sessionExpiration()")
+		} else {
+			r.Observe("C02.N6", snap.Name(), "fall-back for an unset session expiration", c.P.Pos(snap.Node().Pos()), "none: the horizon is the configured expiration + the sweep interval also when the configuration says zero")
+		}
 	}
 	// ---------- N6e: the expiration the horizon is computed from is the one in force after a restore too. The cache
 	// (FSM.sessionExpirationDur) is filled when a Config entry is applied; a node that loaded its state from a snapshot has the
@@ -508,6 +515,82 @@ func (c *Ctx) c02Sweep(snap *load.FuncInfo) {
 		if nLoad == 0 {
 			r.Break("C02.N6: no load of the live server's state found in package main")
 		}
+	}
+	// ---------- N6f: Snapshot's horizon follows the configuration in force: the Config arm of applyRobustMessage writes the
+	// cache for whatever server it is given — also for the temporary server a snapshot folds a superseded Config entry into.
+	// Either that write is confined to the live server (a test `i == ircServer` around it), or Snapshot re-establishes the
+	// cache from the live configuration before it reads it (a function that writes the cache dominates the read).
+	if dur := c.P.Field("main", "FSM", "sessionExpirationDur"); dur != nil {
+		writesDur := map[*load.FuncInfo]bool{}
+		for _, w := range c.writersOf(dur) {
+			if w != arm {
+				writesDur[w] = true
+			}
+		}
+		sg := c.Graph(snap)
+		si := snap.Info()
+		okFresh := false
+		for _, call := range callsIn(snap, func(fn *types.Func, _ *ast.CallExpr) bool { return isFunc(fn, "main", "(*FSM).sessionExpiration") }) {
+			v := sg.VertexOf(call)
+			if sg.DominatedBy(v, func(x *cfgx.Vertex) bool {
+				if x.Node == nil || x.ID == v {
+					return false
+				}
+				// (the refreshing helper may have been expanded here: then the assignment itself stands in Snapshot)
+				if as, isAs := x.Node.(*ast.AssignStmt); isAs {
+					for _, l := range as.Lhs {
+						if fv, _ := lhsField(si, l); fv == dur {
+							return true
+						}
+					}
+				}
+				for _, c2 := range astx.Calls(x.Node, false) {
+					if fn := astx.Callee(si, c2); fn != nil {
+						if h := c.P.FuncOf(fn); h != nil && writesDur[h] {
+							return true
+						}
+					}
+				}
+				return false
+			}) {
+				okFresh = true
+			}
+		}
+		// … or the Config arm writes the cache only for the live server
+		if !okFresh {
+			ai := arm.Info()
+			ag := c.Graph(arm)
+			confined, nW := true, 0
+			for _, v := range ag.Nodes() {
+				as, ok := v.Node.(*ast.AssignStmt)
+				if !ok {
+					continue
+				}
+				for _, l := range as.Lhs {
+					if fv, _ := lhsField(ai, l); fv == dur {
+						nW++
+						live := false
+						for _, f := range ag.FactsAt(v.ID) {
+							if be, isBE := ast.Unparen(f.Expr).(*ast.BinaryExpr); isBE && f.Tag == nil && ((be.Op == token.EQL && f.Val) || (be.Op == token.NEQ && !f.Val)) {
+								for _, side := range []ast.Expr{be.X, be.Y} {
+									if id, isID := ast.Unparen(side).(*ast.Ident); isID {
+										if gv, isVar := ai.Uses[id].(*types.Var); isVar && gv.Parent() == gv.Pkg().Scope() && gv.Name() == "ircServer" {
+											live = true
+										}
+									}
+								}
+							}
+						}
+						if !live {
+							confined = false
+						}
+					}
+				}
+			}
+			okFresh = confined && nW > 0
+		}
+		r.Check(okFresh, "C02.N6", snap.Name(), "the horizon is computed from the configuration in force", c.P.Pos(snap.Node().Pos()), "the cached expiration is refreshed from the live configuration before Snapshot reads it (or only written for the live server)",
+			"Snapshot reads the cached session expiration that the Config arm of applyRobustMessage also writes while a superseded Config entry is folded into the temporary server: after such a fold the next snapshots compute the horizon from the old, shorter expiration and compact entries and output that sessions can still resume from")
 	}
 	// ---------- N6c: the time an entry is judged by: its own UnixNano, the id only for entries from before UnixNano existed
 	if ts := c.MustFunc("robust.(*Message).Timestamp"); ts != nil && ts.Body() != nil {
